@@ -17,13 +17,20 @@ from harness import gen, dense, algos
 
 RULE = ("cases: (T,dt) pairs from a grid (exact double quotient sent to the model as a rational); "
         "(n,k) schedules through a counting subclass of TimeEvolution; concrete classes "
-        "(exact, TEBD, 3 TDVPs, BUG, FixedBUG) on random 2-4 node systems with run/reset/run. "
+        "(exact, TEBD, 3 TDVPs, BUG, FixedBUG) on random 1-4 node systems with run/reset/run, also with default "
+        "configurations, TTNO operators, the bond-dimension record, setter calls between runs; exact evolution of "
+        "vectorised density matrices (open=True); typed / extreme (T,dt) pairs; run/reset/setter histories of the "
+        "counting driver. "
         "non-trivial = distinct case whose step count or schedule exercises rounding-up, k>1, 'inf', "
         "dict/list addressing or a concrete class")
 PARTIAL = ["object aliasing (deepcopy really separates the caller's state) is decided by the oracle only",
            "accuracy of expm in the exact evolution is by contract (validated against an eig-based propagator, for "
            "Hermitian generators and for H0 - i*Gamma)"]
 ASSUMPTIONS = ["math.modf and float division are exact on the double quotient; Python dict keys are distinct"]
+
+# Families that are switched off because the UNCHANGED /repo fails them (possible genuine defects, reported to the
+# coordinator; delete an entry once /repo is repaired or the finding is recorded in known_findings.json).
+PENDING_FINDINGS = {}       # bonddim-after-reset: repaired in /repo (known_findings.json F-C18d)
 
 GRID_T = [0.05, 0.1, 0.3, 0.5, 0.7, 1.0, 1.1, 1.5, 2.0, 2.3, 3.0, 4.1, 4.2, 1e-3, 0.33, 0.99, 7.0, 10.0]
 GRID_DT = [0.01, 0.02, 0.03, 0.05, 0.07, 0.1, 0.11, 0.13, 0.2, 0.25, 0.3, 0.5, 0.9, 1.0, 1e-3, 1.0 / 3, 0.15]
@@ -49,10 +56,20 @@ def _counter_class():
     return Counting
 
 
-def oracle_num_steps(T: float, dt: float) -> int:
-    q = Fraction(T / dt)
+def oracle_num_steps(T, dt) -> int:
+    q = Fraction(float(T / dt))
     fl = q.numerator // q.denominator
     return fl if q - fl < Fraction(0.1) else fl + 1
+
+
+TYPED = {"float": float, "int": int, "np.int64": np.int64, "np.float64": np.float64, "np.float32": np.float32,
+         "bool": bool}
+
+
+def _typed(case):
+    """(T, dt) of a numsteps case in the argument types the case asks for (default: Python floats)."""
+    ty = TYPED[case.get("ttype", "float")]
+    return ty(case["T"]), ty(case["dt"])
 
 
 # ------------------------------------------------------------------ cases
@@ -88,6 +105,33 @@ def gen_cases(ctx):
         sch = [c for c in cases if c["kind"] == "sched"][:250]
         sch2 = [c for c in cases if c["kind"] == "sched2"][:250]
         cases = num + sch + sch2
+    # 1b. step count in other argument types and at extreme magnitudes (input-space audit): integers, NumPy scalars,
+    #     single precision (the quotient is then a float32), quotients up to 1e9, denormal-free tiny / huge scales
+    arng = ctx.subrng("audit")
+    for T, dt, ty in [(3, 1, "int"), (7, 2, "int"), (10, 3, "int"), (1, 3, "int"), (1, 7, "int"), (1, 1, "bool"),
+                      (7, 2, "np.int64"), (31, 10, "np.int64"), (1.0, 0.1, "np.float32"), (0.7, 0.1, "np.float32"),
+                      (2.3, 0.25, "np.float32"), (1.0, 0.3, "np.float64"), (4.1, 0.1, "np.float64"),
+                      (1e6, 1e-3, "float"), (1.0, 1e-9, "float"), (123456.7, 1e-3, "float"), (1e-300, 1e-301, "float"),
+                      (1.05e300, 1e299, "float"), (3.1e-7, 1e-7, "float"), (3.09e-7, 1e-7, "float")]:
+        cases.append({"kind": "numsteps", "T": T, "dt": dt, "ttype": ty, "fam": "numsteps-typed"})
+    for _ in range(ctx.n(60, 600)):
+        dt = 10.0 ** arng.uniform(-9, 4)
+        nsteps = arng.randint(1, 10 ** arng.choice([1, 3, 5, 7]))
+        T = arng.choice([nsteps * dt, (nsteps + 0.1) * dt, (nsteps + arng.random()) * dt,
+                         (nsteps + 0.1) * dt * (1 + arng.choice([-1, 1]) * 2 ** -arng.randint(30, 52))])
+        cases.append({"kind": "numsteps", "T": T, "dt": dt, "ttype": arng.choice(["float", "float", "np.float64"]),
+                      "fam": "numsteps-magnitude"})
+    # 2b. histories of the counting driver: run / reset / setter / run, empty operator collections, NumPy-integer
+    #     evaluation intervals, the accessor options (times(offset), realise)
+    scripts = [["run", "reset", "run"], ["run", "run"], ["run", "reset", ["setn", 5], "run"],
+               ["run", "reset", ["setc", 4], "run"], [["setc", 3], "run", "reset", "run"],
+               [["setn", 0], "run", "reset", ["setn", 7], "run"], ["reset", "run", ["setc", 6], "reset", "run"]]
+    for sc in scripts:
+        for _ in range(ctx.n(4, 20)):
+            cases.append({"kind": "hist", "script": sc, "n": arng.choice([0, 1, 2, 5, 9, 12]),
+                          "k": arng.choice([1, 2, 3, 4, "inf"]), "ktype": arng.choice(["int", "np.int64", "np.int32"]),
+                          "spec": arng.choice(["single", "list", "dict", "empty-list", "empty-dict"]),
+                          "dt": arng.choice(GRID_DT)})
     # 3. concrete classes
     kinds = ["exact", "tebd", "tdvp1", "tdvp2", "tdvp2site", "bug", "fixedbug"]
     reps = ctx.n(16, 60)
@@ -98,7 +142,40 @@ def gen_cases(ctx):
                           "k": rng.choice([1, 2, "inf"]), "spec": rng.choice(["single", "list", "dict"]),
                           "gauge": rng.choice([None, "start", "start", "random"]),
                           "retime": rng.choice([None, None, None, 1, 2, 3, 5])})
+    # 3b. concrete classes in configurations the cases above never use (input-space audit): default configuration
+    #     objects (config=None, svd_parameters=None), TTNO operators, the bond-dimension record, a setter call between
+    #     reset and the second run, one-node systems
+    for r in range(ctx.n(5, 15)):
+        for kind in kinds:
+            ttn = kind != "exact"
+            cases.append({"kind": "class", "algo": kind, "seed": arng.randrange(10 ** 9),
+                          "n": arng.choice([2, 3, 3, 4]), "steps": arng.choice([2, 3, 4]),
+                          "k": arng.choice([1, 2, "inf"]), "spec": arng.choice(["single", "list", "dict"]),
+                          "gauge": arng.choice([None, "start", "random"]),
+                          "retime": arng.choice([None, None, 2, 3]),
+                          "cfg": arng.choice([None, "default", "default"]),
+                          "bonddim": ttn and arng.random() < 0.6,
+                          "opkind": "ttno" if ttn and arng.random() < 0.5 else "tp",
+                          "retime2": arng.choice([None, 1, 2, 5]), "fam": "class-audit"})
+    for kind in ["exact", "tdvp1", "bug", "fixedbug"]:
+        for r in range(ctx.n(1, 4)):
+            cases.append({"kind": "class", "algo": kind, "seed": arng.randrange(10 ** 9), "n": 1,
+                          "steps": arng.choice([2, 3]), "k": arng.choice([1, 2, "inf"]),
+                          "spec": arng.choice(["single", "list", "dict"]), "gauge": None, "retime": None,
+                          "cfg": arng.choice([None, "default"]), "bonddim": False, "opkind": "tp",
+                          "retime2": arng.choice([None, 2]), "fam": "class-one-node"})
+    # 3c. exact evolution of a vectorised density matrix (ExactTimeEvolutionConfig(open=True))
+    for r in range(ctx.n(8, 40)):
+        cases.append({"kind": "open", "seed": arng.randrange(10 ** 9), "d": arng.choice([2, 3, 4]),
+                      "steps": arng.choice([1, 2, 3, 4]), "k": arng.choice([1, 2, "inf"]),
+                      "spec": arng.choice(["single", "list", "dict"]), "retime": arng.choice([None, None, 2, 3])})
     return cases
+
+
+def _numsteps_line(case):
+    T, dt = _typed(case)
+    q = Fraction(float(T / dt))
+    return f"C18 numsteps {q.numerator} {q.denominator}"
 
 
 def run(ctx):
@@ -107,12 +184,16 @@ def run(ctx):
     lines, idx = [], []
     for i, c in enumerate(cases):
         if c["kind"] == "numsteps":
-            q = Fraction(c["T"] / c["dt"])
-            lines.append(f"C18 numsteps {q.numerator} {q.denominator}")
+            lines.append(_numsteps_line(c))
             idx.append(i)
         elif c["kind"] == "sched":
             lines.append(f"C18 sched {c['n']} {c['k']}")
             idx.append(i)
+        elif c["kind"] == "hist":
+            ln = _hist_model_line(c)
+            if ln:
+                lines.append(ln)
+                idx.append(i)
     outs = ctx.lean.batch(lines)
     model = {i: o for i, o in zip(idx, outs)}
     for i, c in enumerate(cases):
@@ -129,31 +210,36 @@ def run_case(ctx, case, model_out=None):
         _case_sched(ctx, case, model_out)
     elif kind == "sched2":
         _case_sched2(ctx, case)
+    elif kind == "hist":
+        _case_hist(ctx, case, model_out)
+    elif kind == "open":
+        _case_open(ctx, case)
     else:
         _case_class(ctx, case)
 
 
 def _case_numsteps(ctx, case, model_out):
     from pytreenet.time_evolution.time_evolution import TimeEvolution
-    T, dt = case["T"], case["dt"]
+    T, dt = _typed(case)
     if model_out is None:
-        q = Fraction(T / dt)
-        model_out = ctx.lean.batch([f"C18 numsteps {q.numerator} {q.denominator}"])[0]
+        model_out = ctx.lean.batch([_numsteps_line(case)])[0]
     try:
         impl = TimeEvolution(0, dt, T, []).num_time_steps
     except Exception as e:          # noqa: BLE001
         ctx.oracle_fail(case, f"driver construction raised {type(e).__name__}: {e}")
         return
-    q = T / dt
+    q = float(T / dt)
     frac = q - math.floor(q)
-    ctx.count(("numsteps", T, dt), nontrivial=frac != 0.0, corr=True)
+    ctx.count(("numsteps", case["T"], case["dt"], case.get("ttype", "float")), nontrivial=frac != 0.0, corr=True)
     ctx.tally("numsteps_branch", "up" if oracle_num_steps(T, dt) > math.floor(q) else "down")
+    ctx.tally("numsteps_argtype", case.get("ttype", "float"))
+    ctx.tally("numsteps_log10_quotient", int(math.floor(math.log10(q))) if q > 0 else "0")
     ctx.sample(case, 2)
     if str(impl) != model_out:
         ctx.corr_fail(case, f"numsteps: impl={impl} model={model_out} for T/dt={q!r}")
     want = oracle_num_steps(T, dt)
-    if impl != want:
-        ctx.oracle_fail(case, f"num_time_steps: T={T} dt={dt} gives {impl} steps, rule gives {want}")
+    if impl != want or isinstance(impl, bool) or not isinstance(impl, (int, np.integer)):
+        ctx.oracle_fail(case, f"num_time_steps: T={T!r} dt={dt!r} gives {impl!r} steps, rule gives {want}")
 
 
 def _case_sched(ctx, case, model_out):
@@ -252,6 +338,187 @@ def _case_sched2(ctx, case):
         ctx.oracle_fail(case, f"driver with T={T}, dt={dt}, k={k}: " + "; ".join(probs[:3]))
 
 
+# ------------------------------------------------------------------ histories of the counting driver
+
+HIST_OPS = {"single": 7, "list": [3, 4, 5], "dict": {"zz": 3, "a": 4, "m": 5}, "empty-list": [], "empty-dict": {}}
+
+
+def _hist_start_n(case):
+    n = case["n"]
+    if n == 0 and any(isinstance(it, list) and it[0] == "setc" for it in case["script"]):
+        n = 3           # a constant-final-time setter needs a positive final time
+    return n
+
+
+def _hist_model_line(case):
+    """Model request for the LAST run of the script, if that run starts from a reset state."""
+    n, last_reset, line = _hist_start_n(case), False, None
+    for it in case["script"]:
+        if it == "reset":
+            last_reset = True
+        elif it == "run":
+            line = f"C18 sched {n} {case['k']}" if last_reset else None
+            last_reset = False
+        else:
+            n = it[1]
+    return line
+
+
+def _case_hist(ctx, case, model_out=None):
+    """run / reset / setter histories on the counting subclass: every run must produce the record the property states
+    for the number of steps and the step size in force, starting from the state the history left."""
+    Counting = _counter_class()
+    spec, k = case["spec"], case["k"]
+    ops = HIST_OPS[spec]
+    ops = dict(ops) if isinstance(ops, dict) else (list(ops) if isinstance(ops, list) else ops)
+    oplist = [ops] if spec == "single" else (list(ops.values()) if isinstance(ops, dict) else list(ops))
+    kk = k if k == "inf" else {"int": int, "np.int64": np.int64, "np.int32": np.int32}[case.get("ktype", "int")](k)
+    n, dt = _hist_start_n(case), case["dt"]
+    ctx.count(("hist", json_key(case)), nontrivial=True, corr=_hist_model_line(case) is not None)
+    ctx.tally("hist_script", " ".join(it if isinstance(it, str) else f"{it[0]}{it[1]}" for it in case["script"]))
+    ctx.tally("hist_ktype", "inf" if k == "inf" else case.get("ktype", "int"))
+    ctx.tally("opspec", spec)
+    probs = []
+    try:
+        algo = Counting(0, dt, 1.0, ops)
+        algo.set_num_time_steps(n)
+        T = n * dt
+        state, last_reset, last_log = 0, False, None
+        for it in case["script"]:
+            if it == "reset":
+                algo.reset_to_initial_state()
+                state, last_reset = 0, True
+                continue
+            if it != "run":
+                if it[0] == "setn":
+                    algo.set_num_time_steps(it[1])
+                    n, T = it[1], it[1] * dt
+                else:
+                    algo.set_num_time_steps_constant_final_time(it[1])
+                    n, dt = it[1], T / it[1]
+                continue
+            algo.log = []
+            algo.run(evaluation_time=kk, pgbar=False)
+            cols = [n] if k == "inf" else list(range(0, n + 1, k))
+            res = algo.results
+            tag = f"run with n={n}, dt={dt}, from state {state}: "
+            if res.shape != (len(oplist) + 1, len(cols)):
+                probs.append(tag + f"table shape {res.shape} expected {(len(oplist) + 1, len(cols))}")
+                break
+            for j, steps in enumerate(cols):
+                for r, op in enumerate(oplist):
+                    if res[r, j] != 1000 * op + state + steps:
+                        probs.append(tag + f"row {r} col {j}: {res[r, j]} expected value after {steps} steps")
+                if res[-1, j] != steps * dt:
+                    probs.append(tag + f"time col {j}: {res[-1, j]} expected {steps}*{dt}")
+            if sorted(c for c, _ in algo.log) != list(range(len(cols))):
+                probs.append(tag + f"columns written {[c for c, _ in algo.log]} (each exactly once expected)")
+            if algo.state != state + n:
+                probs.append(tag + f"{algo.state - state} steps performed, expected {n}")
+            if algo.num_time_steps != n or algo.time_step_size != dt:
+                probs.append(tag + f"driver reports n={algo.num_time_steps}, dt={algo.time_step_size}")
+            want_t = np.array([s * dt for s in cols])
+            if not np.array_equal(algo.times(), want_t) or not np.array_equal(algo.times(offset=2.5), want_t + 2.5):
+                probs.append(tag + "times() / times(offset) != j*k*dt (+ offset)")
+            for r, op in enumerate(oplist):
+                want_r = np.array([1000 * op + state + s for s in cols])
+                keys = [r] + ([list(ops)[r]] if isinstance(ops, dict) else [])
+                for key in keys:
+                    if not np.array_equal(algo.operator_result(key), want_r) or \
+                            not np.array_equal(algo.operator_result(key, realise=True), want_r.real) or \
+                            np.iscomplexobj(algo.operator_result(key, realise=True)):
+                        probs.append(tag + f"operator_result({key!r}) (plain / realise=True) != values of that operator")
+            if algo.operator_results().shape != (len(oplist), len(cols)) or \
+                    not np.array_equal(algo.operator_results(realise=True), np.real(res[:-1])):
+                probs.append(tag + "operator_results() != operator rows")
+            if not algo.results_real():
+                probs.append(tag + "results_real() is False for a real record")
+            last_log = (len(cols), algo.state, list(algo.log)) if last_reset else None
+            state, last_reset = state + n, False
+        if algo.initial_state != 0:
+            probs.append("initial state changed")
+    except Exception as e:          # noqa: BLE001
+        ctx.oracle_fail(case, f"history {case['script']} raised {type(e).__name__}: {e}")
+        return
+    line = _hist_model_line(case)
+    if line and last_log and not probs:
+        if model_out is None:
+            model_out = ctx.lean.batch([line])[0]
+        impl = f"{last_log[0]};{last_log[1]};" + ",".join(f"{c}:{s}:{s}" for c, s in last_log[2])
+        if impl != model_out:
+            ctx.corr_fail(case, f"schedule of the last run: impl={impl} model={model_out}")
+    if probs:
+        ctx.oracle_fail(case, f"driver history {case['script']} (k={k}, {spec}): " + "; ".join(probs[:4]))
+
+
+def json_key(case):
+    import json
+    return json.dumps(case, sort_keys=True, default=str)
+
+
+# ------------------------------------------------------------------ exact evolution of a vectorised density matrix
+
+def _case_open(ctx, case):
+    """ExactTimeEvolutionConfig(open=True): the state is vec(rho), the generator any square matrix L on that space,
+    the recorded value of an operator O is trace(O rho_t) with vec(rho_t) = exp(-i L t) vec(rho_0)."""
+    from pytreenet.time_evolution.exact_time_evolution import ExactTimeEvolution, ExactTimeEvolutionConfig
+    g = np.random.default_rng(case["seed"])
+    d, steps, k, spec = case["d"], case["steps"], case["k"], case["spec"]
+    A = g.standard_normal((d, d)) + 1j * g.standard_normal((d, d))
+    rho = A @ A.conj().T
+    rho = rho / np.trace(rho)
+    L = (g.standard_normal((d * d, d * d)) + 1j * g.standard_normal((d * d, d * d))) / d
+    opm = [g.standard_normal((d, d)) + 1j * g.standard_normal((d, d)) for _ in range(3)]
+    ops = {"single": opm[0], "list": opm, "dict": {"c": opm[0], "a": opm[1], "b": opm[2]}}[spec]
+    nops = 1 if spec == "single" else 3
+    dt = 0.05
+    T = steps * dt
+    vec0 = rho.reshape(-1).copy()
+    keep = vec0.copy()
+    ctx.count(("open", case["seed"]), nontrivial=True)
+    ctx.tally("class", "exact-open")
+    try:
+        algo = ExactTimeEvolution(vec0, L, dt, T, ops, ExactTimeEvolutionConfig(open=True))
+        if case.get("retime"):
+            algo.set_num_time_steps_constant_final_time(case["retime"])
+            steps, dt = case["retime"], T / case["retime"]
+        algo.run(evaluation_time=k, pgbar=False)
+    except Exception as e:          # noqa: BLE001
+        ctx.oracle_fail(case, f"exact (open): construction/run raised {type(e).__name__}: {str(e)[:200]}")
+        return
+    probs = []
+    cols = [steps] if k == "inf" else list(range(0, steps + 1, k))
+    res = algo.results
+    if res.shape != (nops + 1, len(cols)):
+        probs.append(f"table shape {res.shape} expected {(nops + 1, len(cols))}")
+    else:
+        w, V = np.linalg.eig(L)
+        c0 = np.linalg.solve(V, keep)
+        for j, s in enumerate(cols):
+            vt = V @ (np.exp(-1j * w * s * dt) * c0)
+            for r in range(nops):
+                want = np.trace(opm[r] @ vt.reshape(d, d))
+                if abs(res[r, j] - want) > 1e-9 * max(np.linalg.norm(opm[r]) * np.linalg.norm(vt), abs(want)):
+                    probs.append(f"row {r} col {j}: recorded {res[r, j]:.10g} but trace(O rho) after {s} steps is {want:.10g}")
+            if res[-1, j] != s * dt:
+                probs.append(f"time col {j}: {res[-1, j]} != {s * dt}")
+        vt = V @ (np.exp(-1j * w * steps * dt) * c0)
+        if np.linalg.norm(np.asarray(algo.state).reshape(-1) - vt) > 1e-9 * np.linalg.norm(vt):
+            probs.append("final state differs from exp(-i L T) vec(rho)")
+    if not np.array_equal(vec0, keep) or np.shares_memory(vec0, np.asarray(algo.state)):
+        probs.append("caller's state array modified / shared with the working state")
+    first = np.array(res, copy=True)
+    try:
+        algo.reset_to_initial_state()
+        algo.run(evaluation_time=k, pgbar=False)
+        if first.shape != algo.results.shape or not np.allclose(first, algo.results, rtol=1e-9, atol=0.0):
+            probs.append("second run after reset does not reproduce the first record")
+    except Exception as e:          # noqa: BLE001
+        probs.append(f"run after reset raised {type(e).__name__}: {str(e)[:120]}")
+    if probs:
+        ctx.oracle_fail(case, f"exact (open, k={k}, {spec}): " + "; ".join(probs[:4]))
+
+
 # ------------------------------------------------------------------ concrete classes
 
 def _build_problem(case):
@@ -290,6 +557,8 @@ def _build_problem(case):
 def _make(case, ttns, H, Hm, order, dims, ops, dt, T, rng, nprng):
     from pytreenet.operators.tensorproduct import TensorProduct
     kind = case["algo"]
+    default = case.get("cfg") == "default"      # config=None / svd_parameters=None: the documented defaults
+    bd = bool(case.get("bonddim"))              # config.record_bond_dim=True
     if kind == "exact":
         from pytreenet.time_evolution.exact_time_evolution import ExactTimeEvolution
         return ExactTimeEvolution(dense.ttns_vector(ttns, order), _exact_generator(case, Hm), dt, T, ops)
@@ -303,8 +572,45 @@ def _make(case, ttns, H, Hm, order, dims, ops, dt, T, rng, nprng):
                 a = gen.rand_hermitian(nprng, 2)
                 b = gen.rand_hermitian(nprng, 2)
                 tps.append(TensorProduct({nid: a, p: b}))
-        return algos.make_algo("tebd", ttns, None, dt, T, ops, trotter=TrotterSplitting.from_lists(tps))
-    return algos.make_algo(kind, ttns, H, dt, T, ops)
+        if not (default or bd):
+            return algos.make_algo("tebd", ttns, None, dt, T, ops, trotter=TrotterSplitting.from_lists(tps))
+        from pytreenet.time_evolution.tebd import TEBD
+        from pytreenet.time_evolution.ttn_time_evolution import TTNTimeEvolutionConfig
+        return TEBD(ttns, TrotterSplitting.from_lists(tps), dt, T, ops,
+                    svd_parameters=None if default else _no_trunc(),
+                    config=TTNTimeEvolutionConfig(record_bond_dim=True) if bd else None)
+    if not (default or bd):
+        return algos.make_algo(kind, ttns, H, dt, T, ops)
+    from pytreenet.time_evolution.time_evolution import TimeEvoMode
+    mode = TimeEvoMode.FASTEST if default else TimeEvoMode.EXPM
+    if kind in ("tdvp1", "tdvp2", "tdvp2site"):
+        from pytreenet.time_evolution.tdvp_algorithms.tdvp_algorithm import TDVPConfig
+        cfg = TDVPConfig(record_bond_dim=True, time_evo_mode=mode) if bd else None
+        cls = algos.tdvp_classes()[kind]
+        if kind == "tdvp2site":
+            return cls(ttns, H, dt, T, ops, None if default else _no_trunc(), config=cfg)
+        return cls(ttns, H, dt, T, ops, config=cfg)
+    if kind == "bug":
+        from pytreenet.time_evolution.bug import BUG, BUGConfig
+        if default:
+            return BUG(ttns, H, dt, T, ops, config=BUGConfig(record_bond_dim=True) if bd else None)
+        return BUG(ttns, H, dt, T, ops, config=BUGConfig(record_bond_dim=True, time_evo_mode=mode,
+                                                          max_bond_dim=float("inf"), rel_tol=float("-inf"),
+                                                          total_tol=float("-inf")))
+    from pytreenet.time_evolution.fixed_bug import FixedBUG, FixedBUGConfig
+    return FixedBUG(ttns, H, dt, T, ops,
+                    config=FixedBUGConfig(record_bond_dim=True, time_evo_mode=mode) if bd else None)
+
+
+def _no_trunc():
+    from pytreenet.util.tensor_splitting import SVDParameters
+    return SVDParameters(max_bond_dim=float("inf"), rel_tol=float("-inf"), total_tol=float("-inf"))
+
+
+def _bond_dims(state):
+    """Bond dimensions read off the tensor shapes (leg 0 of a non-root tensor is the leg to its parent)."""
+    return {frozenset((nd.parent, nid)): int(state.tensors[nid].shape[0])
+            for nid, nd in state.nodes.items() if nd.parent is not None}
 
 
 def _exact_generator(case, Hm):
@@ -322,6 +628,70 @@ def _state_vec(algo, case, order):
     return dense.ttns_vector(algo.state, order)
 
 
+def _check_record(case, algo, twin, k, dt, want_steps, nops, opmats, order, v_init, Hm, probs, tag=""):
+    """The record of the run just performed against an independently stepped twin (dense expectation values).
+    Returns the bond dimensions of the twin at the evaluated steps (one dict per column)."""
+    kind = case["algo"]
+    n = algo.num_time_steps
+    if n != want_steps:
+        probs.append(tag + f"num_time_steps {n} != {want_steps}")
+    cols = [n] if k == "inf" else list(range(0, n + 1, k))
+    res = algo.results
+    bd_cols = []
+    if res.shape != (nops + 1, len(cols)):
+        probs.append(tag + f"table shape {res.shape} expected {(nops + 1, len(cols))}")
+        return None
+    cur = 0
+    for j, s in enumerate(cols):
+        while cur < s:
+            twin.run_one_time_step()
+            cur += 1
+        v = _state_vec(twin, case, order)
+        if kind != "exact":
+            bd_cols.append(_bond_dims(twin.state))
+        for r in range(nops):
+            want = algos.expval_dense(v, opmats[r])
+            if abs(res[r, j] - want) > 1e-8 * max(1.0, abs(want)):
+                probs.append(tag + f"row {r} col {j}: recorded {res[r, j]:.10g} but <O> after {s} steps is {want:.10g}")
+        if res[-1, j] != s * dt:
+            probs.append(tag + f"time col {j}: {res[-1, j]} != {s * dt}")
+        if kind == "exact":
+            G = _exact_generator(case, Hm)
+            w, V = np.linalg.eig(G)          # generic matrices are diagonalisable
+            ref = V @ (np.exp(-1j * w * s * dt) * np.linalg.solve(V, v_init))
+            if np.linalg.norm(v - ref) > 1e-9 * max(1.0, np.linalg.norm(ref)):
+                probs.append(tag + f"exact evolution after {s} steps differs from exp(-iH t) psi")
+    return bd_cols
+
+
+def _check_bond_record(algo, bd_cols, probs, tag):
+    """operator_result('bond_dim') / bond_dim_matrix() / max_bond_dim() against the twin's tensor shapes."""
+    try:
+        rec = algo.operator_result("bond_dim")
+        got = {frozenset(key): [int(x) for x in val] for key, val in rec.items()}
+    except Exception as e:          # noqa: BLE001
+        probs.append(tag + f"bond-dimension record not readable: {type(e).__name__}: {str(e)[:100]}")
+        return
+    edges = set(bd_cols[0]) if bd_cols else set()
+    want = {e: [c[e] for c in bd_cols] for e in edges}
+    if got != want:
+        bad = next((e for e in edges if got.get(e) != want[e]), None)
+        probs.append(tag + f"bond-dimension record differs from the bond dimensions at the {len(bd_cols)} evaluated "
+                           f"steps (bond {sorted(bad) if bad else sorted(map(sorted, set(got) ^ edges))}: recorded "
+                           f"{got.get(bad)}, state had {want.get(bad)})")
+        return
+    if edges:
+        try:
+            mat, mx = np.asarray(algo.bond_dim_matrix()), np.asarray(algo.max_bond_dim())
+        except Exception as e:      # noqa: BLE001
+            probs.append(tag + f"bond_dim_matrix / max_bond_dim raised {type(e).__name__}: {str(e)[:100]}")
+            return
+        if mat.shape != (len(edges), len(bd_cols)) or sorted(map(tuple, mat.tolist())) != sorted(map(tuple, want.values())):
+            probs.append(tag + "bond_dim_matrix() is not the table of recorded bond dimensions")
+        if mx.tolist() != [max(c.values()) for c in bd_cols]:
+            probs.append(tag + "max_bond_dim() is not the largest bond dimension per evaluated step")
+
+
 def _case_class(ctx, case):
     rng, nprng, par, ttns, info, H, Hm, order, dims, tps, opmats = _build_problem(case)
     kind, steps, k, spec = case["algo"], case["steps"], case["k"], case["spec"]
@@ -331,61 +701,50 @@ def _case_class(ctx, case):
         opl = opmats
     else:
         opl = tps
+        if case.get("opkind") == "ttno":
+            # an operator given as a TTNO (the Hamiltonian itself): its dense matrix is read off its tensors
+            opl = [H] + list(tps[1:])
+            opmats = [Hm] + list(opmats[1:])
     ops = {"single": opl[0], "list": opl, "dict": {"c": opl[0], "a": opl[1], "b": opl[2]}}[spec]
     nops = 1 if spec == "single" else 3
+    bd = bool(case.get("bonddim")) and kind != "exact"
     ctx.count(("class", kind, case["seed"]), nontrivial=True, corr=False)
     ctx.tally("class", kind)
+    for key, val in (("config", case.get("cfg") or "explicit"), ("opkind", case.get("opkind", "tp")),
+                     ("bonddim_recorded", bd), ("setter_after_reset", bool(case.get("retime2"))),
+                     ("class_nodes", case["n"])):
+        ctx.tally(key, val)
     ctx.sample({kk: case[kk] for kk in case}, 6)
     snapshot = copy.deepcopy(ttns)
     v_init = dense.ttns_vector(snapshot, order)
+
+    def twin_for(step_size):
+        return _make(case, copy.deepcopy(snapshot), H, Hm, order, dims, ops, step_size, T, *(_rng_pair(case)))
+
     try:
         algo = _make(case, ttns, H, Hm, order, dims, ops, dt, T, rng, nprng)
-        twin = _make(case, copy.deepcopy(snapshot), H, Hm, order, dims, ops, dt, T,
-                     *(_rng_pair(case)))
         if case.get("retime"):
             # the step size is changed through the class's own public setter before the run: "final time T, step dt"
             # are then T and T/m, and everything stated about dt is stated about the step size in force
             m = case["retime"]
             algo.set_num_time_steps_constant_final_time(m)
             steps, dt = m, T / m
-            twin = _make(case, copy.deepcopy(snapshot), H, Hm, order, dims, ops, dt, T, *(_rng_pair(case)))
             ctx.tally("retimed", kind)
+        twin = twin_for(dt)
         algo.run(evaluation_time=k, pgbar=False)
     except Exception as e:          # noqa: BLE001
         ctx.oracle_fail(case, f"{kind}: construction/run raised {type(e).__name__}: {str(e)[:200]}")
         return
     probs = []
-    n = algo.num_time_steps
-    if n != steps:
-        probs.append(f"num_time_steps {n} != {steps}")
-    cols = [n] if k == "inf" else list(range(0, n + 1, k))
     res = algo.results
-    if res.shape != (nops + 1, len(cols)):
-        probs.append(f"table shape {res.shape} expected {(nops + 1, len(cols))}")
-    else:
-        # independently stepped twin; expectation values by dense algebra
-        cur = 0
-        for j, s in enumerate(cols):
-            while cur < s:
-                twin.run_one_time_step()
-                cur += 1
-            v = _state_vec(twin, case, order)
-            for r in range(nops):
-                want = algos.expval_dense(v, opmats[r])
-                if abs(res[r, j] - want) > 1e-8 * max(1.0, abs(want)):
-                    probs.append(f"row {r} col {j}: recorded {res[r, j]:.10g} but <O> after {s} steps is {want:.10g}")
-            if res[-1, j] != s * dt:
-                probs.append(f"time col {j}: {res[-1, j]} != {s * dt}")
-            if kind == "exact":
-                G = _exact_generator(case, Hm)
-                w, V = np.linalg.eig(G)          # generic matrices are diagonalisable
-                ref = V @ (np.exp(-1j * w * s * dt) * np.linalg.solve(V, v_init))
-                if np.linalg.norm(v - ref) > 1e-9 * max(1.0, np.linalg.norm(ref)):
-                    probs.append(f"exact evolution after {s} steps differs from exp(-iH t) psi")
+    bd_cols = _check_record(case, algo, twin, k, dt, steps, nops, opmats, order, v_init, Hm, probs)
+    if bd_cols is not None:
         if spec == "dict":
             for key, row in (("c", 0), ("a", 1), ("b", 2)):
                 if not np.array_equal(algo.operator_result(key), res[row]):
                     probs.append(f"operator_result({key!r}) is not row {row}")
+        if bd:
+            _check_bond_record(algo, bd_cols, probs, "first run: ")
     # the caller's state object is never modified
     if kind != "exact":
         if dense.structure(ttns) != dense.structure(snapshot):
@@ -406,8 +765,22 @@ def _case_class(ctx, case):
         second = algo.results
         if first.shape != second.shape or not np.allclose(first, second, rtol=1e-9, atol=1e-10):
             probs.append("second run after reset does not reproduce the first record")
+        if bd and bd_cols is not None and "bonddim-after-reset" not in PENDING_FINDINGS:
+            _check_bond_record(algo, bd_cols, probs, "second run after reset: ")
     except Exception as e:          # noqa: BLE001
         probs.append(f"run after reset raised {type(e).__name__}: {str(e)[:120]}")
+    # run / reset / setter / run: the third record is the one of the new step size, from the initial state
+    if case.get("retime2") and not probs:
+        m2 = case["retime2"]
+        try:
+            algo.reset_to_initial_state()
+            algo.set_num_time_steps_constant_final_time(m2)
+            twin2 = twin_for(T / m2)
+            algo.run(evaluation_time=k, pgbar=False)
+            _check_record(case, algo, twin2, k, T / m2, m2, nops, opmats, order, v_init, Hm, probs,
+                          tag=f"after reset and set_num_time_steps_constant_final_time({m2}): ")
+        except Exception as e:      # noqa: BLE001
+            probs.append(f"run after reset and step-size setter raised {type(e).__name__}: {str(e)[:120]}")
     if probs:
         ctx.oracle_fail(case, f"{kind} (k={k}, {spec}): " + "; ".join(probs[:4]))
 
